@@ -17,10 +17,12 @@ def jobs(tier, seed):
         out.append(j)
     # alignment sweep on a tiny file: the re-saved parameter section goes through every residue modulo 512 while the
     # first data bytes stay free (a reader that runs past a missing terminator meets any byte value)
+    # (three descriptions of up to 255 characters: 0..255, 255..510, 510..765 cover every residue; the data are concrete with
+    # non-zero low bytes so that a reader running past a missing end marker fails deterministically instead of forking)
     for L in range(0, 256):
-        for second in (0, 255):
+        for second, third in ((0, 0), (255, 0), (255, 255)):
             out.append({'entry': 'h_load', 'harness': 'h_load.cpp', 'name': 'align', 'cfg': {'gens': 2, 'dump': 1, 'obsfiles': 0}, 'shape': {'P': 1, 'C': 0, 'sub': 0, 'F': 1}, 'lay': {},
-                        'opts': {'analog': 'empty', 'symbolic_meta': False, 'extras': [{'name': 'PADA', 'type': 2, 'dims': [1], 'desc_len': L}, {'name': 'PADB', 'type': 2, 'dims': [1], 'desc_len': second}]}})
+                        'opts': {'analog': 'empty', 'symbolic_meta': False, 'concrete_data': True, 'extras': [{'name': 'PADA', 'type': 2, 'dims': [1], 'desc_len': L, 'concrete_desc': True}, {'name': 'PADB', 'type': 2, 'dims': [1], 'desc_len': second, 'concrete_desc': True}, {'name': 'PADC', 'type': 2, 'dims': [1], 'desc_len': third, 'concrete_desc': True}]}})
     return out
 
 SKIP = ('hdr.dataStart', 'prm.datastart')     # where the data start is layout, not content
